@@ -59,7 +59,7 @@ let () = reg "C05" "Trace" (fun ver args _obs ->
   { model = []; tags = ["trace"]; spec = !problem; known = None })
 
 (* Par <prop> <op> <args..>: the case <prop>/<op> run from several goroutines at once must give its sequential observation *)
-let () = reg "C05" "Par" (fun ver args obs ->
+let par_handler prop = reg prop "Par" (fun ver args obs ->
   match args with
   | prop :: op :: rest ->
     (match obs with
@@ -69,3 +69,5 @@ let () = reg "C05" "Par" (fun ver args obs ->
         | Some h -> let v = h ver rest obs in { v with tags = "parallel" :: v.tags; known = None }
         | None -> { model = []; tags = []; spec = Some ("no handler for " ^ prop ^ "/" ^ op); known = None }))
   | _ -> { model = []; tags = []; spec = Some "malformed Par case"; known = None })
+let () = par_handler "C05"
+let () = par_handler "C16"
